@@ -178,16 +178,31 @@ Proof.
 Qed.
 
 (* the three buffer clauses depend on the state only through these components *)
+Lemma frame_buffers_e s s' :
+  Inv s -> (forall t, chain s' t = chain s t) -> (forall t b, In b (chain s t) -> data s' b = data s b) ->
+  file s' = file s -> (forall t, emitted s' t = emitted s t) ->
+  (forall t b, In b (chain s t) -> flag s' b = flag s b) -> (forall t, nbuf s t <= nbuf s' t) ->
+  (forall t, content s' t = emitted s' t) /\ (forall t, NoDup (chain s' t)) /\
+  (forall t b, In b (chain s' t) -> fst b = t /\ snd b < nbuf s' t /\ f_rec (flag s' b) = true).
+Proof.
+  intros I Hc Hd Hf Hp Hfl Hn. repeat split.
+  - intro t. unfold content. rewrite Hc, Hf, Hp. rewrite <- (I_content s I t). unfold content. f_equal.
+    apply flat_map_ext_in. intros x Hx. eapply Hd; eassumption.
+  - intro t. rewrite Hc. apply (I_nodup s I).
+  - rewrite Hc in H. apply (I_own s I t b H).
+  - rewrite Hc in H. destruct (I_own s I t b H) as (_ & Hlt & _). specialize (Hn t). lia.
+  - rewrite Hc in H. rewrite (Hfl t b H). apply (I_own s I t b H).
+Qed.
+
 Lemma frame_buffers s s' :
   Inv s -> (forall t, chain s' t = chain s t) -> data s' = data s -> file s' = file s -> plog s' = plog s ->
   flag s' = flag s -> nbuf s' = nbuf s ->
   (forall t, content s' t = emitted s' t) /\ (forall t, NoDup (chain s' t)) /\
   (forall t b, In b (chain s' t) -> fst b = t /\ snd b < nbuf s' t /\ f_rec (flag s' b) = true).
 Proof.
-  intros I Hc Hd Hf Hp Hfl Hn. repeat split.
-  - intro t. unfold content, emitted. rewrite Hc, Hd, Hf, Hp. apply (I_content s I).
-  - intro t. rewrite Hc. apply (I_nodup s I).
-  - rewrite Hc in H. apply (I_own s I t b H).
-  - rewrite Hc in H. rewrite Hn. apply (I_own s I t b H).
-  - rewrite Hc in H. rewrite Hfl. apply (I_own s I t b H).
+  intros I Hc Hd Hf Hp Hfl Hn. apply (frame_buffers_e s s'); try assumption.
+  - intros. rewrite Hd. reflexivity.
+  - intro t. unfold emitted. rewrite Hp. reflexivity.
+  - intros. rewrite Hfl. reflexivity.
+  - intro t. rewrite Hn. lia.
 Qed.
